@@ -222,6 +222,47 @@ def archimedean_composition(ctx, rep):
                           f'{" (" + str(und) + " evaluations not decided)" if und else ""} (a relation; intervals can refute it, not prove it)', construct=cons)
 
 
+def theta_ordering(ctx, rep):
+    """Larger theta gives a pointwise larger C: for consecutive exact thetas t1 < t2 and a narrow box, the interval of
+    C(.; t1) must not lie entirely above the interval of C(.; t2) (refutation only)."""
+    from ..ivkind import IV, evaluate
+    from .ivcases import EXACT_THETAS, Q
+    rep.rule('D7.order', 'ordered in theta: for exact t1 < t2 the CDF at t1 is nowhere above the CDF at t2 (narrow boxes, refutation only)')
+    k = 10 if ctx.thorough else 5
+    cuts = [0.05 + 0.9 * i / k for i in range(k + 1)]
+    cells = [IV(c, c + 1e-4) for c in cuts]
+    cache = ctx.memo.setdefault('ivcases', {}).setdefault('dom', {})
+    dom = (IV(0.0, 1.0), IV(0.0, 1.0))
+    for fam in ('Clayton', 'Frank', 'Gumbel'):
+        cls = ctx.prog.cls(Q[fam])
+        fn = cls.lookup('cumulative_distribution')
+        ths = sorted(EXACT_THETAS[fam], key=lambda t: t.lo)
+        total = und = 0
+        refuted = None
+        for t1, t2 in zip(ths, ths[1:]):
+            for u in cells:
+                for v in cells:
+                    total += 1
+                    vals = []
+                    for th in (t1, t2):
+                        alts = evaluate(ctx, cls, 'cumulative_distribution', th, u, v, alts=True, domain=dom, domcache=cache)
+                        good = [x for x, d_, _ in alts if d_ and isinstance(x, IV) and not x.nan]
+                        vals.append(good[0] if len(alts) == len(good) == 1 else None)
+                    if vals[0] is None or vals[1] is None:
+                        und += 1
+                        continue
+                    if vals[0].lo > vals[1].hi + 1e-9:
+                        refuted = refuted or (t1, t2, u, v, vals)
+        cons = f'{fam}: C increasing in theta'
+        if refuted:
+            t1, t2, u, v, vals = refuted
+            rep.bad('D7.order', fn, fn.node.name, f'{fam}: for u in {u}, v in {v} the CDF at theta = {t1.lo:g} lies in {vals[0]}, above the CDF at theta = {t2.lo:g} ({vals[1]}): '
+                    'a larger theta must give a pointwise larger copula', construct=cons)
+        else:
+            rep.undecided('D7.order', fn, fn.node.name, f'C(u, v; t1) <= C(u, v; t2): not refuted on any of {total} box pairs'
+                          f'{" (" + str(und) + " not evaluated)" if und else ""} (a relation between two evaluations; refutation only)', construct=cons)
+
+
 def run(ctx, rep):
     rep.trust(*K.TRUSTED_BASE_COMMON, 'numpy ufuncs and arithmetic act elementwise')
     rep.notes.append('C06 PARTIAL: decides C(u,v) = C(v,u) through the AC normal form of each closed form, row independence of the '
@@ -248,6 +289,7 @@ def run(ctx, rep):
              'with an exact theta, generator(C(u, v)) meets generator(u) + generator(v) (refutation only)')
     ivcases.run_family_clauses(ctx, rep, 'D6.generator', 'generator', ivcases.generator_clauses())
     archimedean_composition(ctx, rep)
+    theta_ordering(ctx, rep)
     l1(ctx, rep, rule='D3.guard', only_classes=set(FAMILIES.values()) | {'copulas.bivariate.base.Bivariate'})
     # check_fit validates theta
     prog = ctx.prog
